@@ -353,7 +353,7 @@ func GetFilters(r Getter, path *CycleCheck, dict Dict) ([]Filter, error) {
 			var ok bool
 			pDict, ok = decodeParams.(Dict)
 			if !ok {
-				return nil, fmt.Errorf("wrong type, expected Dict but got %T", decodeParams)
+				return nil, &MalformedFileError{Err: fmt.Errorf("wrong type, expected Dict but got %T", decodeParams)}
 			}
 		}
 		filter, err := MakeFilter(f, pDict)
@@ -369,7 +369,7 @@ func GetFilters(r Getter, path *CycleCheck, dict Dict) ([]Filter, error) {
 		}
 		pa, ok := decodeParams.(Array)
 		if !ok && decodeParams != nil {
-			return nil, errors.New("invalid /DecodeParms field")
+			return nil, &MalformedFileError{Err: errors.New("invalid /DecodeParms field")}
 		}
 		for i, fi := range f {
 			fi, err := resolve(r, fi, false)
@@ -378,7 +378,7 @@ func GetFilters(r Getter, path *CycleCheck, dict Dict) ([]Filter, error) {
 			}
 			name, ok := fi.(Name)
 			if !ok {
-				return nil, fmt.Errorf("wrong type, expected Name but got %T", fi)
+				return nil, &MalformedFileError{Err: fmt.Errorf("wrong type, expected Name but got %T", fi)}
 			}
 			var pDict Dict
 			if len(pa) > i {
@@ -390,7 +390,7 @@ func GetFilters(r Getter, path *CycleCheck, dict Dict) ([]Filter, error) {
 					var ok bool
 					pDict, ok = pai.(Dict)
 					if !ok {
-						return nil, fmt.Errorf("wrong type, expected Dict but got %T", pai)
+						return nil, &MalformedFileError{Err: fmt.Errorf("wrong type, expected Dict but got %T", pai)}
 					}
 				}
 			}
